@@ -65,12 +65,51 @@ fn solver_true_sets(text: &[u8]) -> Option<Vec<Vec<String>>> {
     Some(res)
 }
 
+thread_local! { static TOOL_CALLS: std::cell::Cell<u64> = std::cell::Cell::new(0); }
+
+/// how a tool takes an output path: as the last positional argument, after an input path, or with `-o`
+#[derive(Clone, Copy)]
+enum OutArg { Positional, AfterInput, DashO }
+
+/// run a generator; every third call writes to one and the same output FILE instead of stdout (the file
+/// keeps whatever an earlier, possibly longer, run left in it) and the file's content stands for the output
+fn run_tool(tool: &str, args: &[String], stdin_data: &[u8], how: OutArg, timeout_s: u64, st: &mut Stats) -> (&'static str, Vec<u8>, Vec<u8>) {
+    let k = TOOL_CALLS.with(|c| { let v = c.get(); c.set(v + 1); v });
+    if k % 3 != 2 { return run_capture(&bin(tool), args, stdin_data, timeout_s); }
+    let dir = scratch();
+    let outp = format!("{}/out_{}.txt", dir, tool);
+    if k % 9 == 2 || !std::path::Path::new(&outp).exists() {
+        // a long earlier content
+        let _ = std::fs::write(&outp, "\"stale\" v_0 & ".repeat(4000));
+    }
+    let mut a: Vec<String> = args.to_vec();
+    let mut input: Vec<u8> = stdin_data.to_vec();
+    match how {
+        OutArg::Positional => a.push(outp.clone()),
+        OutArg::DashO => { a.push("-o".into()); a.push(outp.clone()); }
+        OutArg::AfterInput => {
+            let inp = format!("{}/in_{}.txt", dir, tool);
+            let _ = std::fs::write(&inp, &input);
+            input.clear();
+            // positional INPUT OUTPUT come first
+            a.insert(0, outp.clone());
+            a.insert(0, inp);
+        }
+    }
+    let (class, so, se) = run_capture(&bin(tool), &a, &input, timeout_s);
+    st.hit(&format!("{}.to-file", tool));
+    // a run that fails may never have opened the file: then what it printed is its output
+    if class != "ok" { return (class, so, se); }
+    let content = std::fs::read(&outp).unwrap_or_default();
+    (class, content, se)
+}
+
 pub fn c15(out: &mut dyn Write, tier: &str, _rng: &mut Rng, st: &mut Stats) {
     let mut ns: Vec<usize> = (1..=12).collect();
     ns.extend_from_slice(&[16, 20, 31, 32, 40, 255, 256, 300]);
     if tier == "thorough" { ns.extend(13..=40); ns.extend_from_slice(&[64, 100, 128, 254, 257, 400, 1000]); }
     for n in ns {
-        let (class, stdout, _) = run_capture(&bin("n_queens_gen"), &["-n".into(), n.to_string()], &[], 300);
+        let (class, stdout, _) = run_tool("n_queens_gen", &["-n".into(), n.to_string()], &[], OutArg::Positional, 300, st);
         st.hit(&format!("exit.{}", class));
         if class != "ok" { writeln!(out, "C15|queens|{}|{}|-|-", n, class).unwrap(); continue; }
         let ast_field = match parse_text(&stdout, None) {
@@ -163,7 +202,7 @@ pub fn c16(out: &mut dyn Write, tier: &str, rng: &mut Rng, st: &mut Stats) {
         let mut args: Vec<String> = Vec::new();
         if u { args.push("-u".into()); }
         if a { args.push("-a".into()); }
-        let (class, stdout, _) = run_capture(&bin("max_clique_gen"), &args, csv.as_bytes(), 60);
+        let (class, stdout, _) = run_tool("max_clique_gen", &args, csv.as_bytes(), OutArg::AfterInput, 60, st);
         st.hit(&format!("exit.{}", class));
         st.hit(&format!("flags.u{}a{}", u as u8, a as u8));
         let edges_field = edges.iter().map(|(x, y)| format!("{}>{}", hex(x.as_bytes()), hex(y.as_bytes()))).collect::<Vec<_>>().join(",");
@@ -224,14 +263,15 @@ pub fn c17(out: &mut dyn Write, tier: &str, rng: &mut Rng, st: &mut Stats) {
                 if rng.chance(1, 40) { dd = 1 + rng.below(4) as usize; } // sometimes contradictory
                 s.push_str(&dd.to_string());
             } else if blank == ' ' { s.push('.'); } else { s.push(blank); }
-            if i % 4 == 3 && rng.chance(1, 2) { s.push('\n'); }
-            if rng.chance(1, 10) { s.push(' '); }
+            if i % 4 == 3 && rng.chance(1, 2) { s.push(*rng.pick(&['\n', '\n', '\u{b}', '\u{2028}', '\u{85}'][..])); }
+            // any Unicode white space is ignored, not only the ASCII ones
+            if rng.chance(1, 8) { s.push(*rng.pick(&[' ', ' ', '\t', '\u{a0}', '\u{3000}', '\u{2003}', '\u{c}'][..])); }
         }
         // short input: the text may stop anywhere, also in the middle of a row
         if rng.chance(1, 4) { let keep_chars = rng.below(s.chars().count() as u64 + 1) as usize; s = s.chars().take(keep_chars).collect(); }
         cases.push((2, s));
     }
-    for p in ["1234\n34", "12343", "1", "12", "123412", "1234341221", ".2.4.1"] { cases.push((2, p.to_string())); }
+    for p in ["1234\n34", "12343", "1", "12", "123412", "1234341221", ".2.4.1", "1...\u{b}..2.\u{b}.3..\u{b}...4", "1\u{a0}.\u{a0}.\u{a0}2", "\u{3000}12\u{2028}34"] { cases.push((2, p.to_string())); }
     // root 3: a few puzzles (the formula has 729 variables; only structure and solution soundness)
     let solved9 = "534678912672195348198342567859761423426853791713924856961537284287419635345286179";
     let n3 = if tier == "thorough" { 50 } else { 4 };
@@ -243,7 +283,7 @@ pub fn c17(out: &mut dyn Write, tier: &str, rng: &mut Rng, st: &mut Stats) {
         cases.push((3, s));
     }
     for (root, puzzle) in cases {
-        let (class, stdout, _) = run_capture(&bin("sudoku_gen"), &["-r".into(), root.to_string()], puzzle.as_bytes(), 120);
+        let (class, stdout, _) = run_tool("sudoku_gen", &["-r".into(), root.to_string()], puzzle.as_bytes(), OutArg::AfterInput, 120, st);
         let stripped: String = puzzle.chars().filter(|c| !c.is_whitespace()).collect();
         st.hit(&format!("root{}.exit.{}", root, class));
         if class != "ok" { writeln!(out, "C17|sudoku|{}|{}|{}|-|-", root, hex(stripped.as_bytes()), class).unwrap(); continue; }
@@ -299,7 +339,7 @@ pub fn c18(out: &mut dyn Write, tier: &str, rng: &mut Rng, st: &mut Stats) {
                     else { args.push(v.to_string()); args.push(e.unwrap().to_string()); }
                     if u { args.push("-u".into()); }
                     if dot { args.push("--dot".into()); }
-                    let (class, stdout, _) = run_capture(&bin("random_graph_gen"), &args, &[], 60);
+                    let (class, stdout, _) = run_tool("random_graph_gen", &args, &[], OutArg::DashO, 60, st);
                     let edges = read_edges(&stdout, dot).map(|es| pairs_field(&es)).unwrap_or_else(|| "UNREADABLE".to_string());
                     writeln!(out, "C18|gen|{}|{}|{}|{}|{}|{}", v, e.map(|x| x.to_string()).unwrap_or_else(|| "-".into()), u as u8, complete as u8, class, edges).unwrap();
                     st.hit(&format!("gen.exit.{}", class));
@@ -309,11 +349,14 @@ pub fn c18(out: &mut dyn Write, tier: &str, rng: &mut Rng, st: &mut Stats) {
     }
     // --convert and --colors on random small edge lists
     let n = if tier == "thorough" { 3000 } else { 200 };
-    let names = ["a", "b", "c", "d", "e"];
+    let names_plain = ["a", "b", "c", "d", "e"];
+    // names one of which is a prefix of another, followed by a character that sorts below `_` (v1 / v10, a / aB)
+    let names_prefix = ["v1", "v10", "v2", "v1B", "v"];
     let path = format!("{}/c18_edges.csv", scratch());
     for i in 0..n {
         let k = 2 + rng.below(3) as usize;
         let m = rng.below(7) as usize;
+        let names = if i % 4 >= 2 { &names_prefix } else { &names_plain };
         let edges: Vec<(String, String)> = (0..m).map(|_| (names[rng.below(k as u64) as usize].to_string(), names[rng.below(k as u64) as usize].to_string())).collect();
         let csv: String = edges.iter().map(|(a, b)| format!("{},{}\n", a, b)).collect();
         std::fs::write(&path, csv).unwrap();
@@ -321,7 +364,7 @@ pub fn c18(out: &mut dyn Write, tier: &str, rng: &mut Rng, st: &mut Stats) {
             let u = rng.chance(1, 2);
             let mut args = vec!["--convert".to_string(), path.clone()];
             if u { args.push("-u".into()); }
-            let (class, stdout, _) = run_capture(&bin("random_graph_gen"), &args, &[], 60);
+            let (class, stdout, _) = run_tool("random_graph_gen", &args, &[], OutArg::DashO, 60, st);
             let outp = read_edges(&stdout, false).map(|es| pairs_field(&es)).unwrap_or_else(|| "UNREADABLE".to_string());
             writeln!(out, "C18|convert|{}|{}|{}|{}", u as u8, pairs_field(&edges), class, outp).unwrap();
             st.hit("convert");
@@ -332,7 +375,7 @@ pub fn c18(out: &mut dyn Write, tier: &str, rng: &mut Rng, st: &mut Stats) {
             std::fs::write(&path, csv).unwrap();
             let kcol = rng.below(4) as usize;
             let args = vec!["--convert".to_string(), path.clone(), "--colors".to_string(), kcol.to_string()];
-            let (class, stdout, _) = run_capture(&bin("random_graph_gen"), &args, &[], 60);
+            let (class, stdout, _) = run_tool("random_graph_gen", &args, &[], OutArg::DashO, 60, st);
             let outp = read_edges(&stdout, false).map(|es| pairs_field(&es)).unwrap_or_else(|| "UNREADABLE".to_string());
             writeln!(out, "C18|colors|{}|{}|{}|{}", kcol, pairs_field(&simple), class, outp).unwrap();
             st.hit("colors");
